@@ -260,6 +260,10 @@ def as_container(values, kind):
         return np.asarray(values, dtype=float)
     if kind == "iter":
         return iter(list(values))
+    if kind == "series":
+        import pandas as pd
+
+        return pd.Series(np.asarray(values, dtype=float), index=np.arange(len(values))[::-1] + 3)
     raise ValueError(kind)
 
 
